@@ -657,7 +657,7 @@ def atomic_case(ctx, env, root, tree, cursors, src, kind, draws, pending):
 
 def stream_atomic(ctx, env, fac):
     rng = ctx.rng
-    n_procs = ctx.scale(60, 400)
+    n_procs = ctx.scale(50, 400)
     edits_per_kind = ctx.scale(2, 4)
     pending = []
     batch = 20
@@ -774,7 +774,7 @@ def scenarios(rng):
     sc.append(("eliminate_dead_code:else", "if n < 0:  #@I\n    u[0] = 1.0  #@s1\nelse:\n    u[2] = 2.0  #@e1\n    u[3] = 2.0  #@e2\n", [("eliminate_dead_code", [S_("I")], {})]))
     sc.append(("eliminate_dead_code:for", "u[5] = 0.0  #@s0\nfor i in seq(0, 0):  #@I\n    u[i] = 1.0  #@s1\nu[6] = 0.0  #@s2\n", [("eliminate_dead_code", [S_("I")], {})]))
     sc.append(("inline", "u[9] = 0.0  #@s0\nsub_fill(u[0:8])  #@C\nu[10] = 0.0  #@s1\n", [("inline", [S_("C")], {})]))
-    sc.append(("replace", "for k in seq(0, 16):  #@L1\n    u[k] = 1.0  #@s1\nfor k in seq(0, 16):  #@L2\n    v[k] = 2.0  #@s2\n", [("replace", [B_("L1", "L2"), PROC("sub_two")], {})]))
+    sc.append(("replace", "for k in seq(0, 16):  #@L1\n    u[k] = 1.0  #@s1\nfor k in seq(0, 16):  #@L2\n    v[k] = 2.0  #@s2\n", [("replace", [B_("L1", "L2"), PROC("sub_two")], {"quiet": True})]))
     sc.append(("extract_subproc", const3, [("extract_subproc", [rng.choice([S_("L"), B_("s1", "s2"), B_("s2", "s3")]), "extracted"], {})]))
     sc.append(("merge_writes", "u[0] = 1.0  #@s1\nu[0] = 2.0  #@s2\nv[0] = 1.0  #@s3\n", [("merge_writes", [B_("s1", "s2")], {})]))
     sc.append(("fold_into_reduce", "u[0] = u[0] + 1.0  #@s1\nv[0] = 1.0  #@s2\n", [("fold_into_reduce", [S_("s1")], {})]))
@@ -1096,6 +1096,20 @@ def run_chain(env, p0, ops, marks, module, explicit, tracer=None, prefix_gap=Non
     return p
 
 
+def chain_forward(env, steps, impl):
+    """apply the forwarding functions of the recorded atomic edits in the order of the edits"""
+    try:
+        for st in steps:
+            if impl._root is not st["src"]:
+                return "crash"          # the edits do not form a chain (should not happen)
+            impl = st["fwd"](impl)
+    except env.ic.InvalidCursorError:
+        return "invalid"
+    except Exception:  # noqa
+        return "crash"
+    return env.canon(impl) or "crash"
+
+
 def attribute(env, tracer, p0, pN, pub, what_op):
     """find the first atomic forwarding step whose own result breaks the property"""
     tracer.calls = []
@@ -1246,6 +1260,18 @@ def x_case(ctx, env, tracer, module, name, ops, src, p0, marks_by_line, pending,
         v, detail = check_forward(tree0, treeN, c, res, ol, nl)
         ctx.evaluated((name, json.dumps(c), json.dumps(res)), nontrivial=True)
         ctx.count("X_%s" % v)
+        if v == "invalid" and steps:
+            # no spurious invalidation by a wrong composition: if the atomic edits the primitives
+            # performed, chained in the order they were performed, forward the cursor to the same
+            # lineage, the primitive's own forwarding must not report it as gone
+            chain = chain_forward(env, steps, pub._impl)
+            if chain not in ("invalid", "crash") and steps[-1]["dst"] is pN.INTERNAL_proc() \
+                    and check_forward(tree0, treeN, c, chain, ol, nl)[0] == "ok":
+                ctx.count("X_spurious-invalid")
+                ctx.violation("%s:composition:cursor-invalidated-although-the-chain-of-atomic-edits-forwards-it" % opnames,
+                              "%s: %s cursor %s is reported invalid, the chain of the %d atomic edits forwards it to %s (same lineage)"
+                              % (name, c[0], c, len(steps), chain),
+                              dict(replay, cursor=cursor_desc(tree0, c), chain_result=chain, steps=[s["kind"] for s in steps]))
         if v in BAD:
             if why == "NotImplementedError":
                 key, info = "%s:forwarding-not-implemented" % opnames, None
